@@ -27,9 +27,14 @@ SPEC_FIELDS = {"C01": ["match", "val"], "C02": ["trace"], "C05": ["stores"], "C1
 PROPS = {
     "C01": h1prop("PigeonVerif.Properties.C01", P(["val", "pos", "noerr"]),
                   [("core", 5000, 150000), ("blocks", 1500, 40000), ("throw", 800, 20000), ("lr", 800, 20000), ("utf8", 800, 20000)],
-                  tools=[("pvlower", 1200, 40000, [])]),
+                  # pvlower: what builder.go emits, read back and run, against the reference evaluation of the AST;
+                  # pve2e -ref: the whole chain from the grammar TEXT (front-end, builder, go build, runtime) against the
+                  # reference interpreter on the AST that was printed
+                  tools=[("pvlower", 1200, 40000, []), ("pve2e", 40, 1200, ["-ref"])]),
     "C02": h1prop("PigeonVerif.Properties.C02", P(["trace_ctx"]),
-                  [("blocks", 5000, 150000), ("state", 2000, 50000), ("memo", 1000, 30000), ("lr", 1000, 30000), ("utf8", 1000, 20000)],
+                  [("blocks", 5000, 150000), ("state", 2000, 50000), ("memo", 1000, 30000), ("lr", 1000, 30000), ("utf8", 1000, 20000),
+                   # recovery expressions share the label scope of the expression they guard
+                   ("throw", 1500, 40000)],
                   oracles=[orc_c02]),
     "C03": dict(module="PigeonVerif.Properties.C03", run=tool_check.run_c03, level="other",
                 rule="generated ASTs (all 18 expression kinds, display names, labels, code blocks with nested braces/strings/comments, classes with escapes and Unicode classes) printed in random concrete spellings (4 definition operators, 3 literal quotings with every escape form, comments/whitespace in every position, minimal or redundant parentheses); distinct = distinct text; each text parsed by the real front-end through the verif hook and compared with the expected AST incl. positions, then re-printed and re-parsed",
@@ -75,7 +80,10 @@ PROPS = {
                   [("budget", 6000, 200000), ("memo", 1000, 30000)], oracles=[orc_c16], phase2=phase2_c16,
                   twins=twins_c16_memo, twin_rel=rel_none),
     "C17": h1prop("PigeonVerif.Properties.C17", P(["val", "errs", "pos", "trace_ctx"]),
-                  [("utf8", 6000, 200000)], oracles=[orc_c17]),
+                  [("utf8", 6000, 200000)], oracles=[orc_c17],
+                  # from the grammar text, raw inputs with stray bytes, AllowInvalidUTF8: classes / literals / `.` written
+                  # with U+FFFD in every spelling
+                  tools=[("pve2e", 40, 1200, ["-ref", "-utf8"])]),
     "C18": dict(module="PigeonVerif.Properties.C18", run=conc_check.run_c18, level="other"),
     "C19": dict(module="PigeonVerif.Properties.C19", run=mid_check.run_c19, level="proof"),
     "C20": dict(module="PigeonVerif.Properties.C20", run=tool_check.run_c20, level="other",
